@@ -27,7 +27,7 @@ pub const INFO: PropInfo = PropInfo {
         "scripts do not write the framing headers Content-Length / Transfer-Encoding / Connection directly (user's responsibility by the comment at response/mod.rs:151)",
         "1xx and 304 statuses are generated only without content",
     ],
-    expected_probes: &["c03.remove_then_set", "c03.short_write_fired", "c03.backpressure_fired", "c03.head_request", "c03.status_204", "c03.stream", "c03.drop_content", "c03.many_cycles", "c03.cookie", "c03.second_request_answered", "c03.status_changed_after_content", "c03.stream_then_204"],
+    expected_probes: &["c03.remove_then_set", "c03.short_write_fired", "c03.backpressure_fired", "c03.head_request", "c03.status_204", "c03.stream", "c03.drop_content", "c03.many_cycles", "c03.cookie", "c03.second_request_answered", "c03.status_changed_after_content", "c03.stream_then_204", "c03.from_into_response"],
 };
 
 pub const STD: [&str; 47] = [
@@ -77,6 +77,26 @@ pub struct Scenario {
     pub read_pause_ms: u64,
     /// wall clock at the start (seconds)
     pub wall: u64,
+    /// Some(k): the handler's response starts as `IntoResponse::into_response` of a value of kind k instead of `Response::new(status)`
+    #[serde(default)]
+    pub first: Option<u8>,
+}
+
+/// (the response, its status, its content: (content type, bytes)) for `first` kind k
+fn first_response(k: u8) -> (Response, u16, Option<(&'static str, Vec<u8>)>) {
+    use ohkami::format::JSON;
+    use ohkami::typed::status::{Created, Forbidden};
+    use ohkami::IntoResponse;
+    match k {
+        0 => ("static text".into_response(), 200, Some(("text/plain; charset=UTF-8", b"static text".to_vec()))),
+        1 => (String::from("owned caf\u{e9}").into_response(), 200, Some(("text/plain; charset=UTF-8", "owned caf\u{e9}".as_bytes().to_vec()))),
+        2 => (JSON(serde_json::json!({"a": [1, 2], "b": null})).into_response(), 200, Some(("application/json", serde_json::to_vec(&serde_json::json!({"a": [1, 2], "b": null})).unwrap()))),
+        3 => (Status::NoContent.into_response(), 204, None),
+        4 => (Created(JSON(serde_json::json!({"id": 7}))).into_response(), 201, Some(("application/json", b"{\"id\":7}".to_vec()))),
+        5 => (Result::<&'static str, Forbidden<&'static str>>::Err(Forbidden("no")).into_response(), 403, Some(("text/plain; charset=UTF-8", b"no".to_vec()))),
+        6 => (Result::<String, Response>::Ok(String::new()).into_response(), 200, Some(("text/plain; charset=UTF-8", Vec::new()))),
+        _ => (Created(()).into_response(), 201, None),
+    }
 }
 
 thread_local! {
@@ -415,6 +435,7 @@ pub fn generate(_cfg: &RunCfg, _out: &mut Outcome) -> Scenario {
         window,
         read_max,
         read_pause_ms,
+        first: if !bodyless && t::chance(1, 5) { Some(t::draw(8) as u8) } else { None },
         wall: match t::draw(4) {
             0 => 1_700_000_000,
             1 => t::range(0, 253_402_300_799),
@@ -463,7 +484,10 @@ async fn scripted() -> Response {
     SCRIPT.with(|s| {
         let b = s.borrow();
         let sc = b.as_ref().expect("script installed");
-        let mut res = Response::new(Status::from(sc.status));
+        let mut res = match sc.first {
+            Some(k) => first_response(k).0,
+            None => Response::new(Status::from(sc.status)),
+        };
         res.headers.set().x("X-Scripted", "1");
         for op in &sc.handler_ops {
             apply(&mut res, op);
@@ -517,6 +541,16 @@ fn execute(sc: &Scenario, out: &mut Outcome) {
 
     // the model
     let mut m = Model::new(sc.status, date_at_start.clone());
+    if let Some(k) = sc.first {
+        let (_, st, content) = first_response(k);
+        m.status = st;
+        if let Some((ct, bytes)) = content {
+            m.live.insert("content-type".into(), ct.into());
+            m.live.insert("content-length".into(), bytes.len().to_string());
+            m.body = Body::Bytes(bytes);
+        }
+        out.probe("c03.from_into_response");
+    }
     m.live.insert("x-scripted".into(), "1".into());
     for op in sc.handler_ops.iter().chain(sc.back_ops.iter()) {
         m.apply(op);
